@@ -250,7 +250,7 @@ def _dict(lib, run, recv, args, kw):
         if s is None and isinstance(ks, Lazy) and ks.kind == 'dictview' and ks.payload[0] == 'keys':
             s = SeqV('A', run.deref(ks.payload[1]).keys, True)
         if s is not None and s.kind == 'A':
-            a_ = z3.Const('a!dz', Arm)
+            a_ = smt.bound('adz', Arm)
             if isinstance(vs, SeqV) and vs.kind == 'R':
                 if not run.spec_mode:
                     run.emit('safe.zip', T.rlen(vs.term) == T.alen(s.term), 'zip of sequences of equal length')
@@ -328,7 +328,7 @@ def _update(lib, run, recv, args, kw):
         raise Unsupported('dict.update argument')
     if not o.cols and z3.eq(o.keys, T.aempty):
         return NONE
-    a_ = z3.Const('a!upd', Arm)
+    a_ = smt.bound('aupd', Arm)
     nm = m
     for c in m.cols:
         nm = nm.with_col(c, z3.Lambda([a_], z3.If(T.amem(o.keys, a_), o.cols[c][a_], m.cols[c][a_])))
@@ -505,7 +505,7 @@ def _unique(lib, run, recv, args, kw):
     if s is not None and s.kind == 'A':
         # A4: same element *set*, order unspecified to the proof
         u = fresh('unique', ASeq)
-        a_ = z3.Const('a!u', Arm)
+        a_ = smt.bound('au', Arm)
         run.st.assume(z3.ForAll([a_], T.amem(u, a_) == T.amem(s.term, a_), patterns=[T.amem(u, a_)]))
         run.st.assume(T.adistinct(u))
         return SeqV('A', u)
